@@ -107,11 +107,8 @@ def report_disagreements(c, results, deaths, items, limit_confirm=3):
             key = classify_case(case, ev)
             seen[key] = seen.get(key, 0) + 1
             if seen[key] <= limit_confirm:
-                # confirm on a fresh worker, alone
-                r2, d2 = c.run_worker("esl", [(sc, items[sc])], parallel=1)
-                ev2 = (r2.get(sc) or [{}])[0]
-                if sc not in d2 and ev2.get("agree", True):
-                    raise vf.FrameworkError("disagreement on case %s not reproduced" % sc)
+                # confirm on a fresh worker: alone, else with the cases that preceded it in its worker process
+                c.reproduce("esl", sc, lambda evs: any(not e.get("agree", True) for e in evs))
             c.report(key, ev.get("why", "?"), dict({"case": case, "event": ev}, **c.rp("esl", items[sc])))
     for sc, d in deaths.items():
         case = json.loads(items[sc])
